@@ -483,7 +483,8 @@ def check_unit(case, rec):
 
 @st.composite
 def dispatch_cases(draw, tier):
-    return dict(ge=draw(exps()), fe=draw(exps()), ndims=draw(st.integers(1, 2)), op=draw(st.sampled_from(['grad', 'div', 'laplace', 'jacobian', 'integral', 'curvature', 'normal', 'derivative', 'field'])),
+    return dict(ge=draw(exps()), fe=draw(exps()), ndims=draw(st.sampled_from([1, 2, 2])), op=draw(st.sampled_from(['grad', 'div', 'laplace', 'jacobian', 'integral', 'curvature', 'normal', 'derivative', 'field', 'surfgrad', 'curl', 'jump', 'opposite', 'linearize', 'replace', 'factor',
+                                         'scatter', 'kronecker', 'normalized', 'bind', 'evaluate', 'arguments_for', 'locate', 'locate-wrong-dimension', 'locate-tol-dimension', 'shape-queries', 'surfgrad'])),
                 scale=draw(st.sampled_from([1.0, 2.0, 0.5])))
 
 
@@ -522,10 +523,92 @@ def check_dispatch(case, rec):
         elif op == 'derivative':
             u = function.Argument('u', ())
             res = function.derivative(f * u * u, 'u'); plain = function.derivative(fplain * u * u, 'u'); e = fe
+        elif op == 'field':
+            # field(name, basis, ..., quantity factors): the dimension is the product of the dimensions of its arguments
+            basis = topo.basis('std', degree=1)
+            res = function.field('v', dim_of(fe).wrap(basis * 2.)); plain = function.field('v', basis * 2.); e = fe
+            args_ = dict(v=numpy.arange(len(basis)) * .25 + 1)
+        elif op == 'surfgrad':
+            if nd < 2: raise Discard('surfgrad-1d')
+            smp = topo.boundary.sample('gauss', 1)
+            res = function.surfgrad(f, X); e = [a - b for a, b in zip(fe, ge)]; plain = function.surfgrad(fplain, xs)
+        elif op == 'curl':
+            topo, x = mesh.rectilinear([1, 2, 1]); X = dim_of(ge).wrap(x * case['scale']); xs = x * case['scale']; smp = topo.sample('gauss', 2)
+            vplain = numpy.stack([x[1] * x[2], x[0] ** 2, x[0] * x[1]])
+            res = function.curl(dim_of(fe).wrap(vplain), X); e = [a - b for a, b in zip(fe, ge)]; plain = function.curl(vplain, xs)
+        elif op in ('jump', 'opposite'):
+            smp = topo.interfaces.sample('gauss', 1)
+            disc = topo.basis('discont', degree=0) @ (numpy.arange(len(topo)) + 1.)
+            g = getattr(function, op)
+            res = g(dim_of(fe).wrap(fplain * disc)); plain = g(fplain * disc); e = fe
+        elif op == 'linearize':
+            u = function.Argument('u', ())
+            res = function.linearize(f * u * u, 'u:du'); plain = function.linearize(fplain * u * u, 'u:du'); e = fe
+        elif op == 'replace':
+            u = function.Argument('u', ())
+            res = function.replace_arguments(f * u * u, dict(u=function.Argument('w', ()) * 2.)); plain = function.replace_arguments(fplain * u * u, dict(u=function.Argument('w', ()) * 2.)); e = fe
+        elif op == 'factor':
+            u = function.Argument('u', ())
+            res = function.factor(smp.integral(f * u * u * function.J(X, nd))); plain = function.factor(smp.integral(fplain * u * u * function.J(xs, nd))); e = [a + nd * b for a, b in zip(fe, ge)]
+        elif op == 'scatter':
+            res = function.scatter(dim_of(fe).wrap(numpy.stack([fplain, 2 * fplain])), 4, numpy.array([3, 1])); plain = function.scatter(numpy.stack([fplain, 2 * fplain]), 4, numpy.array([3, 1])); e = fe
+        elif op == 'kronecker':
+            res = function.kronecker(f, 0, 3, 1); plain = function.kronecker(fplain, 0, 3, 1); e = fe
+        elif op == 'normalized':
+            res = function.normalized(dim_of(fe).wrap(x + 1.)); plain = function.normalized(x + 1.); e = [F(0)] * 7
+        elif op == 'bind':
+            res = smp.bind(f); plain = smp.bind(fplain); e = fe
+        elif op == 'evaluate':
+            got = function.evaluate(f, X, smp.integral(f * function.J(X, nd))) if False else None
+            r1, r2 = function.evaluate(smp.integral(f * function.J(X, nd)), smp.integral(function.J(X, nd)))
+            p1, p2 = function.evaluate(smp.integral(fplain * function.J(xs, nd)), smp.integral(function.J(xs, nd)))
+            e1 = [a + nd * b for a, b in zip(fe, ge)]; e2 = [nd * b for b in ge]
+            for r, pl, ee in ((r1, p1, e1), (r2, p2, e2)):
+                if any(ee):
+                    if type(r) is not dim_of(ee): raise Violation('dispatch-dimension', f'evaluate: got {type(r).__name__}, expected {dim_of(ee).__name__}', where='evaluate')
+                    r = r.unwrap()
+                elif isinstance(r, S.Quantity): raise Violation('dispatch-dimension', f'evaluate: got {type(r).__name__}, expected plain', where='evaluate')
+                if not numpy.allclose(r, pl, rtol=1e-12): raise Violation('dispatch-value', f'evaluate: {r} != {pl}', where='evaluate')
+            rec.label('op:evaluate'); rec.nontrivial = True
+            return
+        elif op == 'arguments_for':
+            u = function.Argument('u', (2,))
+            a = function.arguments_for(f * u.sum(), X)
+            if set(a) != {'u'} or isinstance(a['u'], S.Quantity): raise Violation('dispatch-value', f'arguments_for: {a}', where='arguments_for')
+            rec.label('op:arguments_for'); rec.nontrivial = True
+            return
+        elif op in ('locate', 'locate-wrong-dimension', 'locate-tol-dimension'):
+            pts = numpy.full((2, nd), .5) + numpy.arange(2)[:, None] * .25
+            if op == 'locate':
+                s1 = topo.locate(X, dim_of(ge).wrap(pts * case['scale']), tol=dim_of(ge).wrap(1e-10))
+                s2 = topo.locate(xs, pts * case['scale'], tol=1e-10)
+                a, b = s1.eval(x), s2.eval(x)
+                if not numpy.allclose(a, b, atol=1e-12) or not numpy.allclose(a, pts, atol=1e-9): raise Violation('dispatch-value', f'locate: {a} vs {b} vs {pts}', where='locate')
+                rec.label('op:locate'); rec.nontrivial = True
+                return
+            other = [F(1) - g_ for g_ in ge]      # another dimension
+            if not any(other) or other == ge: raise Discard('no-other-dimension')
+            try:
+                if op == 'locate-wrong-dimension': topo.locate(X, dim_of(other).wrap(pts), tol=dim_of(ge).wrap(1e-10))
+                else: topo.locate(X, dim_of(ge).wrap(pts * case['scale']), tol=dim_of(other).wrap(1e-10))
+            except S.DimensionError:
+                rec.label('op:' + op); rec.nontrivial = True
+                return
+            raise Violation('mixed-dimension-accepted', f'{op}: geometry [{dim_of(ge).__name__}] with coordinates / tolerance of dimension [{dim_of(other).__name__}] was accepted', where=op)
+        elif op == 'shape-queries':
+            q = dim_of(fe).wrap(numpy.array([[1., numpy.nan, 3.]]))
+            got = (numpy.shape(q), numpy.ndim(q), numpy.size(q), numpy.isnan(q).tolist(), numpy.isfinite(q).tolist())
+            if got != ((1, 3), 2, 3, [[False, True, False]], [[True, False, True]]): raise Violation('dispatch-value', f'shape queries: {got}', where='shape-queries')
+            rec.label('op:shape-queries'); rec.nontrivial = True
+            return
+        elif op == 'swap_spaces':
+            res = function.swap_spaces(f, 'X', 'Y') if False else None
+            raise Discard('swap-spaces-needs-two-spaces')
         else:
-            res = function.field('v', topo.basis('std', 1), dim_of(fe).wrap(1.)) if False else None
-            raise Discard('field-not-generated')
+            raise Discard('unknown-op')
     except Discard:
+        raise
+    except Violation:
         raise
     except Exception as ex:
         raise Violation('dispatch-raised', f'{op}: {type(ex).__name__}: {ex}', where=op + ':' + type(ex).__name__)
@@ -537,8 +620,9 @@ def check_dispatch(case, rec):
         if isinstance(res, S.Quantity):
             raise Violation('dispatch-dimension', f'{op}: got {type(res).__name__}, expected plain', where=op)
         inner = res
-    args = dict(u=numpy.array(1.5)) if op == 'derivative' else {}
-    if op == 'integral':
+    args = dict(u=numpy.array(1.5), du=numpy.array(.5), w=numpy.array(.75)) if op in ('derivative', 'linearize', 'replace', 'factor') else {}
+    if op == 'field': args = args_
+    if op in ('integral', 'factor'):
         a, b = function.eval([inner, plain], arguments=args)
     else:
         a, b = smp.eval([inner, plain], arguments=args)
@@ -551,7 +635,7 @@ def check_dispatch(case, rec):
 SUBS = [Sub('algebra', algebra_cases, check_algebra, {'quick': 2500, 'thorough': 30000}, weight=3),
         Sub('parse', parse_cases, check_parse, {'quick': 2500, 'thorough': 30000}, weight=2),
         Sub('unit', unit_cases, check_unit, {'quick': 800, 'thorough': 8000}, weight=1),
-        Sub('dispatch', dispatch_cases, check_dispatch, {'quick': 60, 'thorough': 800}, weight=1)]
+        Sub('dispatch', dispatch_cases, check_dispatch, {'quick': 150, 'thorough': 2000}, weight=1)]
 
 TRIGGERS = {}
 
@@ -570,6 +654,6 @@ MANIFEST = dict(
     technique='model-based property testing (Hypothesis): generated programs over quantities vs an exponent-vector model and plain-number arithmetic; grammar-generated unit strings vs an independent SI table; round trips',
     text='Generated operator programs over dimensional quantities are checked against an exponent-vector model (resulting type) and the same computation on plain numbers (value); mixing dimensions in '
          'add-like, comparison, stack-like, setitem and interp operations must raise; unit strings generated from the documented grammar are parsed and compared with an independent table of SI units '
-         'and prefixes, formatted back, pickled; nutils.unit systems and the nutils dispatch (grad/div/laplace/jacobian/integral/...) are exercised the same way. Held on everything explored.',
+         'and prefixes, formatted back, pickled; nutils.unit systems and the nutils dispatch (grad/div/laplace/curl/surfgrad/jacobian/normal/curvature/integral/bind/evaluate/field/derivative/linearize/replace_arguments/factor/scatter/kronecker/jump/opposite/normalized/arguments_for/locate incl. rejection of mixed dimensions) are exercised the same way. Held on everything explored.',
     note='Trusted: the SI table in props/c20.py, plain numpy arithmetic, Hypothesis.',
 )
